@@ -154,6 +154,11 @@ def apply_real(holder, op):
                 holder['attrs'].overwrite(holder['name'], shape_rows(op[1], tail))
             elif kind == 'overwriteIds':
                 holder['attrs'].overwrite(holder['name'], shape_rows(op[2], tail), ids=np.array(op[1]))
+            elif kind == 'keepRef':
+                # a caller reads the public data_frame and keeps (lazily shared, copy-on-write) pieces of it alive:
+                # not an update - the attribute must behave exactly as before
+                df = a.data_frame
+                holder.setdefault('refs', []).append([df[0], df.iloc[:2], df.copy(deep=False)][op[1] % 3])
         return 'ok'
     except ValueError:
         return 'value_error'
@@ -188,6 +193,8 @@ def rand_rows(r, n, w, allow_nan=False):
 
 def rand_op(r, ids, w):
     n = len(ids)
+    if r.random() < .07:
+        return ('keepRef', r.randrange(3))
     u = r.random()
     if u < .14:
         return ('setData', rand_rows(r, n if r.random() < .9 else n + 1, w))
@@ -281,6 +288,11 @@ def history(ctx, hid):
             ctx.fail(f'failed-op-mutates:{op[0]}', f'{op[0]} raised {err} but changed the attribute', case, None)
             return
         # ---- correspondence
+        if op[0] == 'keepRef':
+            if before != after:
+                ctx.fail('read-mutates:data_frame', 'reading data_frame and keeping a reference changed the attribute', case, None)
+                return
+            continue
         if ctx.driver is not None:
             for c in cfgs:
                 if model[c] is None:
@@ -321,10 +333,28 @@ def elem_stream(ctx, k):
 def _elem_stream(ctx, k):
     from femio import FEMAttribute, FEMElementalAttribute
     r = ctx.rng
-    m = mg.gen_combinatorial(r, max_elems=ctx.n(8, 14))
-    blocks = m['blocks']
+    types = r.sample(['line', 'tri', 'quad', 'tet', 'tet2', 'pyr', 'prism', 'hex', 'hex2', 'hexprism', 'hexprism'], r.randint(1, 3))
+    m = mg.gen_combinatorial(r, types=types, max_elems=ctx.n(8, 14))
+    blocks = dict(m['blocks'])
+    if r.random() < .3:
+        # a ragged polyhedron block (long type name, rows of different lengths)
+        used = {e for b in blocks.values() for e, _ in b}
+        nid = [i for i, _ in m['nodes']]
+        rows = []
+        for _ in range(r.randint(1, 3)):
+            e = max(used) + r.randint(1, 5)
+            used.add(e)
+            rows.append((e, r.sample(nid, min(len(nid), r.randint(4, 7)))))
+        blocks['polyhedron'] = rows
+        blocks = {t: blocks[t] for t in mg.ELEMENT_TYPES if t in blocks}
+    def block_data(t, b):
+        if t == 'polyhedron':
+            a = np.empty(len(b), dtype=object)
+            a[:] = [np.array(c) for _, c in b]
+            return a
+        return np.array([c for _, c in b])
     el = mg.quiet(lambda: FEMElementalAttribute('ELEMENT', {
-        t: FEMAttribute(t, ids=np.array([e for e, _ in b]), data=np.array([c for _, c in b]), silent=True)
+        t: FEMAttribute(t, ids=np.array([e for e, _ in b]), data=block_data(t, b), silent=True)
         for t, b in blocks.items()}))
     owner = {e: (t, c) for t, b in blocks.items() for e, c in b}
     ids = [int(i) for i in el.ids]
